@@ -6,7 +6,11 @@ package mqtt
 // The oracle is the standard, written once as spec functions: section 2.2 (fixed header), 2.2.3 (remaining
 // length), 1.5.3 (length-prefixed strings), 3.1-3.14 (packet layouts). Nothing here is compiled into the broker.
 
-import vs "github.com/emitter-io/emitter/internal/verifspec"
+import (
+	"io"
+
+	vs "github.com/emitter-io/emitter/internal/verifspec"
+)
 
 // ---------------------------------------------------------------------------------------------------------
 // 1.5.3 / 2.2.3 primitives
@@ -118,15 +122,19 @@ func specFirstByte(typ uint8, h *Header) byte {
 	return typ<<4 | boolToUInt8(h.DUP)<<3 | h.QOS<<1 | boolToUInt8(h.Retain)
 }
 
-// @ verify writeHeader pre=pre_writeHeader post=post_writeHeader props=C16
+// @ verify writeHeader pre=pre_writeHeader post=post_writeHeader props=C16 modular modifies=buf
 // @ loop writeHeader 0 unroll 5
 func pre_writeHeader(buf []byte, msgType uint8, h *Header, length int) bool {
 	return len(buf) == maxHeaderSize && msgType < 16 && 0 <= length && length < 268435456 && (h == nil || h.QOS < 4)
 }
 func post_writeHeader(buf []byte, msgType uint8, h *Header, length int, res0 int) bool {
-	n := int(specRLBytes(uint32(length)))
-	return res0 == 5-n && buf[res0] == specFirstByte(msgType, h) &&
-		vs.Forall(0, n, func(k int) bool { return uint32(buf[res0+1+k]) == specRLDigit(uint32(length), uint8(k)) })
+	n := specRLBytes(uint32(length))
+	l := uint32(length)
+	return res0 == 5-int(n) && buf[res0] == specFirstByte(msgType, h) &&
+		uint32(buf[res0+1]) == specRLDigit(l, 0) &&
+		(n < 2 || uint32(buf[res0+2]) == specRLDigit(l, 1)) &&
+		(n < 3 || uint32(buf[res0+3]) == specRLDigit(l, 2)) &&
+		(n < 4 || uint32(buf[res0+4]) == specRLDigit(l, 3))
 }
 
 // ---------------------------------------------------------------------------------------------------------
@@ -218,4 +226,197 @@ func post_decodeConnect_strings(data []byte, res0 Message, res1 error) bool {
 		(fl&0x04 == 0 || (specStrIs(c.WillTopic, data, specConnectAt(data, 1)) && specStrIs(c.WillMessage, data, specConnectAt(data, 2)))) &&
 		(fl&0x80 == 0 || specStrIs(c.Username, data, specConnectAt(data, 3))) &&
 		(fl&0x40 == 0 || specStrIs(c.Password, data, specConnectAt(data, 4)))
+}
+
+// ---------------------------------------------------------------------------------------------------------
+// 3.2 CONNACK, 3.3 PUBLISH, 3.4-3.7 PUBACK/PUBREC/PUBREL/PUBCOMP, 3.11 UNSUBACK
+
+//@ verify decodeConnack pre=pre_decodeConnack post=post_decodeConnack props=C16
+func pre_decodeConnack(data []byte) bool { return len(data) == 2 }
+func post_decodeConnack(data []byte, res0 Message) bool {
+	c, ok := res0.(*Connack)
+	return ok && c.ReturnCode == data[1]
+}
+
+// specPublishWF: topic name (string), packet identifier iff QoS > 0, then the payload to the end (3.3.2, 3.3.3).
+func specPublishWF(d []byte, qos uint8) bool {
+	if len(d) > specMaxBody || !specStrOK(d, 0) {
+		return false
+	}
+	return qos == 0 || specStrEnd(d, 0)+2 <= len(d)
+}
+
+func pre_decodePublish(data []byte, hdr Header) bool { return specPublishWF(data, hdr.QOS) }
+
+//@ verify decodePublish pre=pre_decodePublish post=post_decodePublish props=C16
+func post_decodePublish(data []byte, hdr Header, res0 Message, res1 error) bool {
+	p, ok := res0.(*Publish)
+	at := specStrEnd(data, 0)
+	if !ok || res1 != nil || !specStrIs(p.Topic, data, 0) || p.Header != hdr {
+		return false
+	}
+	if hdr.QOS > 0 {
+		return p.MessageID == specU16(data, at) && vs.SameBytes(p.Payload, data[at+2:])
+	}
+	return p.MessageID == 0 && vs.SameBytes(p.Payload, data[at:])
+}
+
+func pre_decodeID(data []byte) bool { return len(data) >= 2 && len(data) <= specMaxBody }
+
+//@ verify decodePuback pre=pre_decodeID post=post_decodePuback props=C16
+func post_decodePuback(data []byte, res0 Message) bool {
+	p, ok := res0.(*Puback)
+	return ok && p.MessageID == specU16(data, 0)
+}
+
+//@ verify decodePubrec pre=pre_decodeID post=post_decodePubrec props=C16
+func post_decodePubrec(data []byte, res0 Message) bool {
+	p, ok := res0.(*Pubrec)
+	return ok && p.MessageID == specU16(data, 0)
+}
+
+//@ verify decodePubrel pre=pre_decodeID post=post_decodePubrel props=C16
+func post_decodePubrel(data []byte, hdr Header, res0 Message) bool {
+	p, ok := res0.(*Pubrel)
+	return ok && p.MessageID == specU16(data, 0) && p.Header == hdr
+}
+
+//@ verify decodePubcomp pre=pre_decodeID post=post_decodePubcomp props=C16
+func post_decodePubcomp(data []byte, res0 Message) bool {
+	p, ok := res0.(*Pubcomp)
+	return ok && p.MessageID == specU16(data, 0)
+}
+
+//@ verify decodeUnsuback pre=pre_decodeID post=post_decodeUnsuback props=C16
+func post_decodeUnsuback(data []byte, res0 Message) bool {
+	p, ok := res0.(*Unsuback)
+	return ok && p.MessageID == specU16(data, 0)
+}
+
+// ---------------------------------------------------------------------------------------------------------
+// Encoders. Each EncodeTo hands the whole packet to the writer in ONE Write call (what keeps packets framed
+// when several goroutines share a connection): fixed header byte, remaining length, variable header, payload.
+
+// The encode buffers come from a sync.Pool whose New makes 64 KiB buffers; that a recycled buffer is private to
+// the caller and still has that size is assumed here (sync.Pool is outside the verified code).
+//@ assume (*bufferPool).Get post=post_bufferPool_Get fresh
+func post_bufferPool_Get(res0 *byteBuffer) bool { return res0 != nil && len(res0.buf) == MaxMessageSize }
+
+//@ assume (*bufferPool).Put
+
+// specPacketHead: b starts with the fixed header for a packet of the given type/flags and a body of n bytes, and
+// is exactly that long; returns through specBodyAt where the body starts.
+func specPacketHead(b []byte, typ uint8, h *Header, n int) bool {
+	k := int(specRLBytes(uint32(n)))
+	return len(b) == 1+k+n && b[0] == specFirstByte(typ, h) &&
+		vs.Forall(0, k, func(i int) bool { return uint32(b[1+i]) == specRLDigit(uint32(n), uint8(i)) })
+}
+func specBodyAt(n int) int { return 1 + int(specRLBytes(uint32(n))) }
+
+// specOneWrite: exactly one Write happened, and EncodeTo returned what it returned.
+func specOneWrite(res0 int, res1 error) bool {
+	return vs.TraceLen() == 1 && vs.TraceIs(0, "Write") && res0 == vs.TraceRetInt(0, 0) && res1 == vs.TraceRetErr(0, 1)
+}
+
+func specPublishLen(p *Publish) int {
+	n := 2 + len(p.Topic) + len(p.Payload)
+	if p.QOS > 0 {
+		n += 2
+	}
+	return n
+}
+
+//@ verify (*Publish).EncodeTo pre=pre_Publish_EncodeTo post=post_Publish_EncodeTo_big,post_Publish_EncodeTo_head,post_Publish_EncodeTo_topic,post_Publish_EncodeTo_msgid,post_Publish_EncodeTo_payload props=C16,C09
+func pre_Publish_EncodeTo(p *Publish, w io.Writer) bool {
+	return p != nil && w != nil && p.QOS < 4 && len(p.Topic) <= 65535 && len(p.Payload) <= specMaxBody
+}
+// specMaxEncodedBody: the largest body an encoder can emit: the 64 KiB frame minus the fixed-header reserve.
+const specMaxEncodedBody = MaxMessageSize - maxHeaderSize
+
+func post_Publish_EncodeTo_big(p *Publish, w io.Writer, res0 int, res1 error) bool { // refused, nothing written
+	return specPublishLen(p) <= specMaxEncodedBody || (res1 == ErrMessageTooLarge && vs.TraceLen() == 0)
+}
+func post_Publish_EncodeTo_head(p *Publish, w io.Writer, res0 int, res1 error) bool {
+	n := specPublishLen(p)
+	return n > specMaxEncodedBody || (specOneWrite(res0, res1) && specPacketHead(vs.TraceBytes(0, 1), TypeOfPublish, &p.Header, n))
+}
+func post_Publish_EncodeTo_topic(p *Publish, w io.Writer, res0 int, res1 error) bool {
+	n := specPublishLen(p)
+	b := vs.TraceBytes(0, 1)
+	return n > specMaxEncodedBody || (len(b) == specBodyAt(n)+n && specStrIs(p.Topic, b, specBodyAt(n)))
+}
+func post_Publish_EncodeTo_msgid(p *Publish, w io.Writer, res0 int, res1 error) bool {
+	n := specPublishLen(p)
+	b := vs.TraceBytes(0, 1)
+	return n > specMaxEncodedBody || p.QOS == 0 || (len(b) == specBodyAt(n)+n && specU16(b, specBodyAt(n)+2+len(p.Topic)) == p.MessageID)
+}
+func post_Publish_EncodeTo_payload(p *Publish, w io.Writer, res0 int, res1 error) bool {
+	n := specPublishLen(p)
+	b := vs.TraceBytes(0, 1)
+	return n > specMaxEncodedBody || (len(b) == specBodyAt(n)+n && vs.SameBytes(p.Payload, b[len(b)-len(p.Payload):]))
+}
+
+// specIDPacket: the single Write carried a packet of the given type whose body is the 2-byte packet identifier.
+func specIDPacket(typ uint8, h *Header, id uint16, res0 int, res1 error) bool {
+	b := vs.TraceBytes(0, 1)
+	return specOneWrite(res0, res1) && specPacketHead(b, typ, h, 2) && specU16(b, 2) == id
+}
+
+//@ verify (*Puback).EncodeTo pre=pre_Puback_EncodeTo post=post_Puback_EncodeTo props=C16
+func pre_Puback_EncodeTo(p *Puback, w io.Writer) bool { return p != nil && w != nil }
+func post_Puback_EncodeTo(p *Puback, w io.Writer, res0 int, res1 error) bool {
+	return specIDPacket(TypeOfPuback, nil, p.MessageID, res0, res1)
+}
+
+//@ verify (*Pubrec).EncodeTo pre=pre_Pubrec_EncodeTo post=post_Pubrec_EncodeTo props=C16
+func pre_Pubrec_EncodeTo(p *Pubrec, w io.Writer) bool { return p != nil && w != nil }
+func post_Pubrec_EncodeTo(p *Pubrec, w io.Writer, res0 int, res1 error) bool {
+	return specIDPacket(TypeOfPubrec, nil, p.MessageID, res0, res1)
+}
+
+//@ verify (*Pubrel).EncodeTo pre=pre_Pubrel_EncodeTo post=post_Pubrel_EncodeTo props=C16
+func pre_Pubrel_EncodeTo(p *Pubrel, w io.Writer) bool { return p != nil && w != nil && p.Header.QOS < 4 }
+func post_Pubrel_EncodeTo(p *Pubrel, w io.Writer, res0 int, res1 error) bool {
+	return specIDPacket(TypeOfPubrel, &p.Header, p.MessageID, res0, res1)
+}
+
+//@ verify (*Pubcomp).EncodeTo pre=pre_Pubcomp_EncodeTo post=post_Pubcomp_EncodeTo props=C16
+func pre_Pubcomp_EncodeTo(p *Pubcomp, w io.Writer) bool { return p != nil && w != nil }
+func post_Pubcomp_EncodeTo(p *Pubcomp, w io.Writer, res0 int, res1 error) bool {
+	return specIDPacket(TypeOfPubcomp, nil, p.MessageID, res0, res1)
+}
+
+//@ verify (*Unsuback).EncodeTo pre=pre_Unsuback_EncodeTo post=post_Unsuback_EncodeTo props=C16
+func pre_Unsuback_EncodeTo(u *Unsuback, w io.Writer) bool { return u != nil && w != nil }
+func post_Unsuback_EncodeTo(u *Unsuback, w io.Writer, res0 int, res1 error) bool {
+	return specIDPacket(TypeOfUnsuback, nil, u.MessageID, res0, res1)
+}
+
+//@ verify (*Connack).EncodeTo pre=pre_Connack_EncodeTo post=post_Connack_EncodeTo props=C16
+func pre_Connack_EncodeTo(c *Connack, w io.Writer) bool { return c != nil && w != nil }
+func post_Connack_EncodeTo(c *Connack, w io.Writer, res0 int, res1 error) bool { // 3.2: flags byte 0, return code
+	b := vs.TraceBytes(0, 1)
+	return specOneWrite(res0, res1) && specPacketHead(b, TypeOfConnack, nil, 2) && b[2] == 0 && b[3] == c.ReturnCode
+}
+
+// 3.12-3.14: PINGREQ, PINGRESP, DISCONNECT are the two bytes (type<<4, 0).
+func specEmptyPacket(typ uint8, res0 int, res1 error) bool {
+	b := vs.TraceBytes(0, 1)
+	return specOneWrite(res0, res1) && len(b) == 2 && b[0] == typ<<4 && b[1] == 0
+}
+
+//@ verify (*Pingreq).EncodeTo pre=pre_Pingreq_EncodeTo post=post_Pingreq_EncodeTo props=C16
+func pre_Pingreq_EncodeTo(w io.Writer) bool { return w != nil }
+func post_Pingreq_EncodeTo(w io.Writer, res0 int, res1 error) bool {
+	return specEmptyPacket(TypeOfPingreq, res0, res1)
+}
+
+//@ verify (*Pingresp).EncodeTo pre=pre_Pingreq_EncodeTo post=post_Pingresp_EncodeTo props=C16
+func post_Pingresp_EncodeTo(w io.Writer, res0 int, res1 error) bool {
+	return specEmptyPacket(TypeOfPingresp, res0, res1)
+}
+
+//@ verify (*Disconnect).EncodeTo pre=pre_Pingreq_EncodeTo post=post_Disconnect_EncodeTo props=C16
+func post_Disconnect_EncodeTo(w io.Writer, res0 int, res1 error) bool {
+	return specEmptyPacket(TypeOfDisconnect, res0, res1)
 }
